@@ -53,6 +53,19 @@ func (s *NegationVisitor) ExitOC_StringListNullPredicateExpression(ctx *parser.O
 	s.Negation.Expression = result
 }
 
+// nestNegations wraps the negation built for the operand once more for every further NOT token of the
+// oC_NotExpression: NOT NOT x is a negated negation, not NOT x.
+func nestNegations(negation *cypher.Negation, numNegations int) *cypher.Negation {
+	for numNegations > 1 {
+		negation = &cypher.Negation{
+			Expression: negation,
+		}
+		numNegations--
+	}
+
+	return negation
+}
+
 type JoiningVisitor struct {
 	BaseVisitor
 
@@ -70,7 +83,7 @@ func (s *JoiningVisitor) EnterOC_NotExpression(ctx *parser.OC_NotExpressionConte
 func (s *JoiningVisitor) ExitOC_NotExpression(ctx *parser.OC_NotExpressionContext) {
 	if len(ctx.AllNOT()) > 0 {
 		visitor := s.ctx.Exit().(*NegationVisitor)
-		s.Joined.Add(visitor.Negation)
+		s.Joined.Add(nestNegations(visitor.Negation, len(ctx.AllNOT())))
 	}
 }
 
